@@ -166,4 +166,22 @@ theorem polarity (n : Nat) (user : List Bool) (i : Nat) (hi : i < user.length) :
 example : AgreeOnGood [⟨1, 2, 1, true⟩, ⟨5, 5, 1, false⟩] [⟨1, 2, 1, true⟩, ⟨1e30, -7, 3, false⟩] := by
   simp [AgreeOnGood]
 
+/-! ### polarity as the source's `parse_mask` computes it (regenerated on every run) -/
+
+/-- "True / non-zero = ignore": with the source's rule a pixel is used exactly when the user's mask value is 0 — whatever
+the value is (segmentation labels, negative flags) -/
+theorem repo_mask_polarity (v : Int) : Gen.maskGiven.used v = (v == 0) := by
+  simp [Gen.maskGiven, Validate.MaskGiven.used]
+
+/-- "With no mask supplied every pixel is used" — whatever the datum, exact zeros included -/
+theorem repo_no_mask_all_used (datum : Int) : Gen.maskDefault.used datum = true := by
+  simp [Gen.maskDefault, Validate.MaskDefault.used]
+
+/-- the two rules that look equivalent on 0/1 masks are not: `(1 − mask).astype(bool)` keeps a pixel labelled 2 -/
+theorem oneMinus_violates : ¬ ∀ v : Int, Validate.MaskGiven.oneMinusNonzeroUsed.used v = (v == 0) := by
+  intro h; have := h 2; revert this; decide
+
+theorem dataNonzero_violates : ¬ ∀ d : Int, Validate.MaskDefault.dataNonzero.used d = true := by
+  intro h; have := h 0; revert this; decide
+
 end Pysersic.Props.C06
